@@ -28,7 +28,7 @@ CHECKS = {
     "C05": dict(
         level="exploration",
         technique="runtime monitor: differential execution on two VTerms (padded output vs. inner render alone) + documentation-derived padding model",
-        text="All four padding surfaces (Padding.pad, Renderable.render, RenderIterator frames, format()) are driven with synthetic and real "
+        text="All five padding surfaces (Padding.pad, Renderable.render, RenderIterator frames, format() incl. same-instance histories across resizes, and real old-API draw() calls of stills and animations judged by the final screen of the byte stream) are driven with synthetic and real "
         "inner renders; box size, alignment constraints, fill cells, untouched cells for empty fill, cursor, get_padded_size/to_exact/resolve "
         "agreement are judged on every case, plus the complete small grid.",
         note="Trusts VTerm and the padding model in vf/models/padding.py (CENTER odd cell: either side accepted).",
@@ -87,9 +87,9 @@ CHECKS = {
         level="fault_enumeration",
         technique="fault enumeration: exception injected at the k-th frame render for every k of every generated scenario (5 exception kinds) + size failures; per-token finalization counters",
         text="Every scenario (str, render, draw still/animated, full/partial iteration, close twice, drop reference, seeks, __iter__, "
-        "_from_render_data_ with either ownership) is profiled fault-free and re-run with a fault at each render call; every render-data "
+        "_from_render_data_ with either ownership, two or three co-existing iterators ended in any order, re-entrant close, mid-iteration resizes) is profiled fault-free and re-run with a fault at each render call; every render-data "
         "token must be finalized exactly once (0 times by the library when the caller keeps ownership), explicitly rather than only by the "
-        "collector once rendering has started, never used after finalization, and the iterator must be closed afterwards.",
+        "collector (also when size validation fails before the first render), never used after finalization, and the iterator must be closed afterwards.",
         note="Finalization is observed through the subject's own _finalize_render_data_ / _render_ (tokens in its _Data_ namespace); CPython reference counting assumed for the drop-reference scenario.",
     ),
     "C03": dict(
@@ -112,7 +112,7 @@ CHECKS = {
     "C18": dict(
         level="exploration",
         technique="runtime monitor: incremental screen output on VTerm vs. the same canvas executed on a fresh VTerm (placement layer), sync-bracket / clear / z-index observers",
-        text="Random urwid layout histories with kitty, iterm2 and block widgets under kitty, konsole and other identities: after every redraw "
+        text="Random urwid layout histories (Columns/Pile/Overlay/LineBox/Filler/ListBox scrolling, grids of flow widgets of unequal heights with a moving split, an image widget or SolidFill as the topmost widget) with kitty, iterm2 and block widgets under kitty, konsole and other identities: after every redraw "
         "the placements on the incrementally updated reference terminal must equal a full repaint of the same canvas (no ghost, no missing "
         "image), all redraw output lies inside one synchronized-update bracket, delete-all on start/stop/clear, live kitty widgets hold "
         "distinct in-range z-indexes (boundary reached by presetting the allocator).",
@@ -130,7 +130,7 @@ CHECKS = {
     "C07": dict(
         level="fault_enumeration",
         technique="fault enumeration: a KeyboardInterrupt / other exception at every write, flush, sleep and render operation of each generated draw() (clean-up classified by stack walk at injection time), with escape-cutting write prefixes; VTerm + termios + state observers",
-        text="Every non-clean-up operation of each profiled draw() (both APIs, stills and animations, all styles per identity) is faulted once "
+        text="Every non-clean-up operation of each profiled draw() (both APIs, stills and animations incl. animated sources drawn with animate=False, all styles per identity, new-API subjects with text, SGR and string-type graphics-like output incl. a frame-clearing command) is faulted once "
         "per exception kind and per delivered prefix; afterwards the cursor must be visible, no graphics string or chunked transmission left "
         "open, a probe text displayed, attributes reset, termios identical, render data finalized once, image size/frame unchanged, and the "
         "outcome as documented (animations end silently on Ctrl-C, stills propagate).",
@@ -157,25 +157,25 @@ CHECKS = {
     ),
     "C13": dict(
         level="fault_enumeration",
-        technique="fault enumeration: an exception before/after every tcgetattr/tcsetattr/tcdrain/write/select/read of each operation (restoring call excluded by stack walk), real SIGINT while parked in select; byte-for-byte tcgetattr comparison on a real pty",
+        technique="fault enumeration: an exception before/after every tcgetattr/tcsetattr/tcdrain/write/select/read of each operation and every write/flush of draw()'s output stream incl. those of its clean-up (only the restoring tcsetattr itself excluded, by stack walk), real SIGINT while parked in select; byte-for-byte tcgetattr comparison on a real pty",
         text="Every attribute-changing operation (queries, direct reads in all modes, query helpers, draw with echo suppressed) is run from "
         "random initial attribute sets; after normal return, time-out, a raising predicate, an injected KeyboardInterrupt/OSError at each "
         "system-call boundary and a real SIGINT, tcgetattr must return exactly the initial list (all flags and control characters).",
-        note="System-call names in the library's namespaces are replaced by counting proxies; a signal between entering a finally block and the restoring call is out of scope (cannot be excluded in Python).",
+        note="System-call names in the library's namespaces are replaced by counting proxies; a signal between entering a finally block and its first call is out of scope (cannot be excluded in Python).",
     ),
     "C15": dict(
         level="exploration",
         technique="runtime monitor: freshness model of cell size / ratio / memoized values compared after every step of resize/toggle histories on a real pty; body-execution counters under barrier-released threads with sys.monitoring yield injection",
         text="Histories of resizes (TIOCSWINSZ, pixels present or zero with XTWINOPS answered by the scripted terminal), swap toggles, "
         "query enable/disable, cell-ratio mode changes and reads: every value must be what a fresh computation gives (pixel-only changes "
-        "lenient, as documented); results memoized while queries were disabled must vanish on enable_queries(); memoized probes run their "
+        "lenient, as documented), also after subprocesses were started (shared-memory cache); results memoized while queries were disabled -- a negative auto-cell-ratio support finding included -- must vanish on enable_queries(); memoized probes run their "
         "body exactly once per argument tuple / terminal size under 2..16 simultaneous first calls with line-level yield injection.",
-        note="Trusts the freshness model in vf/checks/c15.py and CPython's sys.monitoring for yield injection; AutoCellRatio.is_supported is taken as the library decides it at first use.",
+        note="Trusts the freshness model in vf/checks/c15.py and CPython's sys.monitoring for yield injection; AutoCellRatio.is_supported is reset to None (documented as settable) at the start of every history and modelled independently.",
     ),
     "C14": dict(
         level="exploration",
         technique="runtime monitor: offline overlap sweep over [enter, exit] interval logs of lock_tty-decorated probes from every thread and process of real multiprocessing trees (fork/spawn/forkserver) under a pty; id-echoing queries; hand-over delay and line-level yield injection",
-        text="Each run is a fresh process tree (threads x children x grandchildren, Process.start() at random moments while other threads "
+        text="Each run is a fresh process tree (threads x children x grandchildren, created as Process(target=...) or as a Process subclass overriding run(); all processes rendezvous for a second batch so that the whole tree is demonstrably at work simultaneously; Process.start() at random moments while other threads "
         "hammer probes and queries, delays injected around the lock hand-over and inside the wrappers): no two synchronized intervals of "
         "different threads/processes may overlap (one system-wide monotonic clock, stamps taken inside the body), every query must get "
         "exactly its own reply, nested calls must not block; hangs in >= 3 independent runs are a reproducible-hang violation, fewer are "
